@@ -291,7 +291,22 @@ PROPS['C18']['bounded'] = ['kint']
 PROPS['C20']['bounded'] = ['cfg_all', 'cli_config']
 PROPS['C07']['bounded'] = ['rename', 'topo', 'cli_robust']
 
-NOT_APPLICABLE = {k: NA_TEXT for k in ['C08', 'C10', 'C14', 'C19']}
+NOT_APPLICABLE = {
+    'C08': 'the rejections live in TryFrom<&syn::Type> and in parse_struct / parse_enum / parse_const, which take syn values: Verus cannot load syn '
+           '(single-file only) and the functions are iterator-adapter chains over syn types, the Kani compiler crashes on anything reaching '
+           'proc_macro2 / syn; "no output file is written or modified" is an ordering of effects across parallel_parse, check_parse_errors and the '
+           'dyn Language writers that no contract within reach states - see DESIGN.md section 6',
+    'C10': 'syntactic well-formedness of a whole output file is a statement about the grammar of six target languages; contracts here can state '
+           'fragments the property names (a type expression: C05, a member with its optional marker: C04, comment lines: C15) but not that a file '
+           'parses - that needs the grammars as specification and a proof over every writer - see DESIGN.md section 6 and section 9',
+    'C14': 'the partition by crate is Path / OsStr component handling (find_crate_name), the import computation is HashSet iteration with BTreeMap '
+           'entry-API closures (used_imports) over data produced by syn::UseTree walks, and the import lines are text: after outlining what Verus '
+           'rejects nothing of the deciding logic remains; only write_multiple_files (each crate\'s module holds exactly what was generated for it) '
+           'is under contract, under C17 - see DESIGN.md section 6',
+    'C19': 'the property quantifies over what rustc accepts and how serde_derive behaves on twin programs; typeshare\'s own share is a 30-line '
+           'syn::DeriveInput walk in a proc-macro crate (syn / quote / proc_macro2: outside Verus, and the Kani compiler crashes on them) - see '
+           'DESIGN.md section 6',
+}
 
 ALL_UNITS = sorted({u for p_ in PROPS.values() for u in p_.get('units', [])})
 ALL_KANI = ['kint']
